@@ -578,7 +578,7 @@ def _rewrite_labels(prog):
                     break
                 arr = new
             if not E._chunks_match(arr.chunks, self._chunks):
-                drift.append(1)
+                drift.append("same-grid" if tuple(map(len, arr.chunks)) == tuple(map(len, self._chunks)) else "other-grid")
         except Exception:
             pass
         return out
@@ -615,6 +615,7 @@ def _rewrite_labels(prog):
                         labs.add("native-sliding-window-rewrite-below")
         if drift:
             labs.add("freeze-drift-bridged")
+            labs.update("freeze-drift:" + d for d in drift)
     except Exception as e:  # accounting must never decide a verdict
         labs.add("rewrite-accounting-failed:" + type(e).__name__)
     finally:
@@ -656,9 +657,11 @@ def _placement_labels(prog, vars_chunks):
 
 
 def _outside_domain(prog):
-    """Design-round finding F7 (not about map_blocks, not listed): a Blockwise whose per-block adjust_chunks is
-    frozen at construction and that has no ChunksFreeze (sliding_window_view, repeat) downstream of a
-    sliding-window reduction raises 'adjust_chunks specified with N blocks'.  Steered around, counted."""
+    """Design-round finding F7 and its siblings (not about map_blocks, not listed): a node that fixes chunk
+    metadata at construction and has no ChunksFreeze (sliding_window_view, repeat: per-block adjust_chunks;
+    broadcast_to: its own _chunks) downstream of a sliding-window reduction raises 'adjust_chunks specified with N
+    blocks' / 'Missing dependency' or, for broadcast_to, silently reads the wrong input blocks once the native
+    rewrite moved the reduction onto the input's chunks.  Steered around, counted."""
     L = len(prog["leaves"])
     wr = set()
     for k, s in enumerate(prog["stmts"]):
@@ -669,9 +672,9 @@ def _outside_domain(prog):
     if not wr:
         return None
     for k, s in enumerate(prog["stmts"]):
-        if s["op"] in ("sliding_window_view", "swv_reduce", "repeat"):
+        if s["op"] in ("sliding_window_view", "swv_reduce", "repeat", "broadcast_to"):
             if any(_ancestors(prog, j) & wr for j in s["args"]):
-                return "rejected:outside-C20|unfrozen-adjust_chunks-over-window-reduction(F7)"
+                return "rejected:outside-C20|unfrozen-layout-node-over-window-reduction(F7)"
     return None
 
 
@@ -759,7 +762,8 @@ def check(case, vals=None):
         why = util.same(got, vals[o], rtol=0.0, atol=atol)
         if why:
             last = prog["stmts"][o - L]["op"] if o >= L else "leaf"
-            fails.append((f"values|{why.split(' ')[0]}|last={last}", f"output {o}: {why}\n got={util.short(got)}\n exp={util.short(vals[o])}"))
+            where = "mb_info-output" if last == "mb_info" else "above-mb_info" if anc & {L + k for k in mb} else "no-mb_info-below"
+            fails.append((f"values|{why.split(' ')[0]}|{where}", f"output {o} (last op {last}): {why}\n got={util.short(got)}\n exp={util.short(vals[o])}"))
     labs |= _rewrite_labels(prog)
     if refused:
         return "refused", fails, sorted(labs)
